@@ -73,7 +73,7 @@ def router(P: Project) -> FuncInfo:
     return c[0]
 
 
-TOTAL_STR_METHODS = {"split", "strip", "rstrip", "lstrip", "startswith", "endswith", "lower", "upper"}
+TOTAL_STR_METHODS = {"split", "strip", "rstrip", "lstrip", "startswith", "endswith", "lower", "upper", "partition", "rpartition"}
 
 
 def loop_fallible(extra_total=()):
